@@ -135,6 +135,22 @@ def check_history(acc):
         leak.run(lambda: MergeNameParts(style=style, allow_inplace_modification=False), [split_lib(g) for g in groups], acc, f"MergeNameParts({style})", poison=P, judge=leak.copy_judge)
     leak.run(lambda: MergeCoAuthors(allow_inplace_modification=False), [lambda g=g: MergeNameParts().transform(split_lib(g)()) for g in groups], acc, "MergeCoAuthors", poison=P, judge=leak.copy_judge)
     leak.run(lambda: SplitNameParts(allow_inplace_modification=False), [lambda g=g: bibtexparser.parse_string("@a{k, author = {%s}}" % " and ".join(g), append_middleware=[SeparateCoAuthors()]) for g in groups], acc, "SplitNameParts", poison=P, judge=leak.copy_judge)
+    # (a') the public `style` attribute set after the instance was used = the constructor argument (read at every call)
+    for g in groups + [["Brinch Hansen, Per", "Ford, Jr., Henry"], ["de la Vall{\\'e}e Poussin, Charles Louis"]]:
+        for first, then in (("first", "last"), ("last", "first")):
+            acc.trace(3)
+            acc.case(nontrivial_key=("style-attribute", tuple(g), first))
+            try:
+                inst = MergeNameParts(style=first)
+                inst.transform(split_lib(g)())
+                inst.style = then
+                got = [f.value for f in inst.transform(split_lib(g)()).entries[0].fields]
+                exp = [f.value for f in MergeNameParts(style=then).transform(split_lib(g)()).entries[0].fields]
+            except Exception as ex:
+                acc.exception(ex, {"style_attribute": list(g), "from": first}, "MergeNameParts with the style attribute set later")
+                continue
+            if got != exp:
+                acc.violation({"oracle": "attribute_set_after_use_equals_constructor_argument", "middleware": "MergeNameParts"}, {"case": {"style_attribute": list(g), "from": first, "to": then}, "observed": got, "expected": exp})
     # (b) one list object held by two fields (chapter.editor = book.author)
     for inplace in (True, False):
         for g in groups:
